@@ -110,14 +110,22 @@ Lemma path_not_single_str ts text value relex :
   parse_path_all ts = Ok ts -> ts <> [TStr text value relex].
 Proof. intros H ->. discriminate H. Qed.
 
+(** a path without generic arguments is read by [parse_path_all] in the list and string forms
+    ([parse_path_ty] only adds the paths that carry `<` `>`) *)
+Lemma parse_path_ty_plain ts p : parse_path_all ts = Ok p -> parse_path_ty ts = Ok p.
+Proof.
+  unfold parse_path_ty, parse_path_all. destruct (has_angle ts); [discriminate|]. intros H. exact H.
+Qed.
+
 (** rules (1), (2): `method = a::b`, `method(a::b)`, `method = "a::b"`, `method("a::b")` *)
 Lemma sp_path_path ts m : parse_path_all ts = Ok ts -> sp_path ts m -> meta_2_path m = Ok ts.
 Proof.
-  intros Hp [p|p d|p t Ht|p d t Ht]; try destruct Ht as [text value Hv];
-    cbn [meta_2_path meta_name_value_2_path str_parse_path relex_of bind]; try exact Hp; try reflexivity.
-  destruct ts as [|t [|t2 r]]; try exact Hp.
-  - destruct t; try exact Hp. discriminate Hp.
-  - destruct t; exact Hp.
+  intros Hp. pose proof (parse_path_ty_plain ts ts Hp) as Hq.
+  intros [p|p d|p t Ht|p d t Ht]; try destruct Ht as [text value Hv];
+    cbn [meta_2_path meta_name_value_2_path str_parse_path relex_of bind]; try exact Hq; try reflexivity.
+  destruct ts as [|t [|t2 r]]; try exact Hq.
+  - destruct t; try exact Hq. discriminate Hp.
+  - destruct t; exact Hq.
 Qed.
 
 (** * integers *)
@@ -235,15 +243,28 @@ Proof.
   rewrite (nv_of_needs_into e v v' ty H H'), (nv_of_toks e v H), (nv_of_toks e v' H'). reflexivity.
 Qed.
 
+(** a value with `<` `>` that is accepted is one path expression, kept as written; the list
+    form accepts it too ([cut] = false there) *)
+Lemma angle_expr_ok cut v x : angle_expr cut v = Ok x -> x = XOther v /\ angle_expr false v = Ok x.
+Proof.
+  unfold angle_expr, ood_nv, ood_cut. destruct (path_start_ok v); [|discriminate].
+  destruct (qpath_expr v) as [y| | |]; try discriminate; [|destruct cut; discriminate].
+  destruct (snd y) as [|lt [|a [|c r]]]; try discriminate.
+  - intros H. inversion H. split; reflexivity.
+  - repeat match goal with |- context [if ?b then _ else _] => destruct b end; discriminate.
+Qed.
+
 Lemma args_expr_nv_of e v : args_expr e = Ok v -> nv_of e v.
 Proof.
   unfold args_expr. destruct e as [|t [|t2 r]].
-  - intros H. apply bind_ok' in H. destruct H as [u [_ H]]. inversion H. apply NV_other. discriminate.
+  - cbn [has_angle existsb]. intros H. apply bind_ok' in H. destruct H as [u [_ H]]. inversion H. apply NV_other. discriminate.
   - destruct (is_lit_tok t) eqn:E.
     + intros H. inversion H. apply NV_lit. exact E.
     + intros H. apply bind_ok' in H. destruct H as [u [_ H]]. inversion H. apply NV_other.
       intros t' Ht'. inversion Ht'. subst. exact E.
-  - intros H. apply bind_ok' in H. destruct H as [u [_ H]]. inversion H. apply NV_other. discriminate.
+  - destruct (has_angle (t :: t2 :: r)).
+    { intros H. apply angle_expr_ok in H. destruct H as [-> _]. apply NV_other. discriminate. }
+    intros H. apply bind_ok' in H. destruct H as [u [_ H]]. inversion H. apply NV_other. discriminate.
 Qed.
 
 (** rule (1): `expression = e`, `expression(e)` *)
